@@ -20,12 +20,13 @@ from .common import Check, build_harness, run_sharded, coq_eval, hexs, unhex, MH
 ARROW = "\n ──→ "          # "\n --> " as printed by format_err
 THEOREMS = [
     "C13_all_or_nothing", "C13_stage_failure_writes_nothing", "C13_pipeline_ok_iff",
-    "C13_errors_name_files_partial", "C13_parse_failure_reported", "C13_check_failure_reported",
+    "C13_errors_name_files", "C13_ctx_errors_name_files", "C13_pathless_error_pathless_input",
+    "C13_ctx_failure_reported", "C13_parse_failure_reported", "C13_check_failure_reported",
     "C13_mirrored", "C13_out_paths_nodup", "C13_rerun_idempotent", "C13_rerun_idempotent_wf",
     "C13_order_independent", "C13_order_independent_verdict",
     "C13_fresh_file_inert", "C13_fresh_file_project", "C13_cross_file_visible",
     "C13_order_independent_without_unique_names_refuted", "C13_enumeration_dependent_refuted",
-    "C13_ctx_error_unattributed_refuted", "C13_error_implies_nothing_written_refuted",
+    "C13_error_implies_nothing_written_refuted",
     "C13_one_output_per_source_refuted", "C13_hypotheses_satisfiable",
 ]
 
@@ -168,7 +169,7 @@ class Case:
                  src_dirs=(), note="", make_src=True):
         self.family, self.files, self.pre = family, list(files), list(pre)
         self.src, self.target, self.annotate, self.runs = src, target, annotate, runs
-        self.fault = fault            # None | (index, kind) | ("all", kind)
+        self.fault = fault            # None | (index, kind) | ("all", kind) | ("all2", kind): files 0 and 2
         self.src_dirs = list(src_dirs)  # extra directories below src (relative)
         self.note = note
         self.make_src = make_src      # False: the source directory is not created
@@ -305,7 +306,12 @@ def parse_stages(r, items):
     for k, x in zip(keys, f1):
         st["parse"].append((k, None if x == "ok" else x[1:]))
     if f2 not in ("ok", "-"):
-        st["ctx"] = f2[1:].split(";")
+        # the whole context failed: the model needs which files fail alone (field 5)
+        st["ctx_whole"] = f2[1:].split(";")
+        alone = r[5].split(",") if len(r) > 5 else []
+        for k, x in zip(keys, alone):
+            if x.startswith("e"):
+                st["ctx"].append((k, [m for m in x[1:].split(";") if m != ""]))
     for k, x in zip(keys, f3):
         if x.startswith("e"):
             st["cfail"].append(k)
@@ -336,7 +342,7 @@ def cpath(p):
 
 def tab_term(st):
     pt = cl([f"({q(k)}, {'None' if m is None else 'Some ' + q(m)})" for k, m in st["parse"]])
-    dt = cl([q(m) for m in st["ctx"]])
+    dt = cl([f"({q(k)}, {cl([q(m) for m in ms])})" for k, ms in st["ctx"]])
     ct = cl([f"({q(k)}, {cl([q(m) for m in ms])})" for k, ms in st["check"]])
     cf = cl([q(k) for k in st["cfail"]])
     gt = cl([f"({q(k)}, {r} {q(v)})" for k, (r, v) in st["gen"]])
@@ -474,7 +480,7 @@ def judge_dir(case, run, before=None):
             bad.append("a source file was modified or removed")
     faulty_paths = set()
     if case.fault is not None:
-        idx = range(len(case.files)) if case.fault[0] == "all" else [case.fault[0]]
+        idx = range(len(case.files)) if case.fault[0] == "all" else ([0, 2] if case.fault[0] == "all2" else [case.fault[0]])
         for i in idx:
             fr = case.files[i]["rel"]
             faulty_paths.add(srcd + ("/" + fr if fr else ""))
@@ -529,7 +535,7 @@ def judge_dir(case, run, before=None):
                     bad.append("error without file name")
                 elif ep not in faulty_paths and ep.rstrip("/") not in faulty_paths:
                     bad.append("error names a file that has no fault: " + ep)
-            if case.fault[0] == "all":
+            if case.fault[0] in ("all", "all2"):
                 named = {error_path(e) for e in run["errors"]}
                 for fp in faulty_paths - named:
                     bad.append("a faulty file is missing from the diagnostics: " + fp)
@@ -556,7 +562,9 @@ def edge_cases():
         Case("edge", [f(".mamba", P), f(".mamba.mamba", Q)], note="stem of .mamba is the whole name"),
         Case("edge", [f("x.mamba", P), f("x.py/y.mamba", Q)], note="file and directory at one output path"),
         Case("edge", [f("a.mamba", P), f("x.mamba", Q)], pre=[("target/x.py", None)], note="directory in the way"),
-        Case("edge", [f("x.mamba", P)], src_dirs=["d.mamba"], note="directory matched by the glob"),
+        Case("edge", [f("x.mamba", P)], src_dirs=["d.mamba"], note="directory named like a source (skipped since c8709a7)"),
+        Case("edge", [f("a.mamba", "import xx as yy, zz\n"), f("b/c.mamba", A1), f("z.mamba", "def g(a: Int := 1, b: Int) -> Int => a\n")],
+             fault=("all2", "context"), note="two files with context errors, one without"),
         Case("edge", [f("x.mamba", P)], target="out/py", note="nested target that does not exist"),
         Case("edge", [f("", P)], src="main.mamba", note="source is a single file"),
         Case("edge", [f("", "def x := (\n")], src="main.mamba", fault=(0, "syntax"), note="single faulty file"),
@@ -661,7 +669,7 @@ def _run(ck, quick, rng, replay, base):
                                        src=names[0], target=names[1], annotate=ann, fault=(i, kind)), {}))
             if n > 2:
                 # every file faulty at one stage: every file is reported, in the order the glob lists them
-                kind = rng.choice(["lexical", "syntax", "type"])
+                kind = rng.choice(["lexical", "syntax", "type", "context"])
                 allf = files
                 for i in range(n):
                     allf = with_fault(allf, i, kind, rng)
@@ -918,10 +926,10 @@ def _run(ck, quick, rng, replay, base):
         "distinct_nontrivial": len({json.dumps(c.to_json(), sort_keys=True) for _, c, _ in dir_cases if len(c.files) > 1})
                                + sum(len(v) for v in by_project.values()),
         "rule": "generated projects of 1-5 files in nested directories (classes and functions with unique names, "
-                "random cross-file uses in both glob directions, custom src/target names, both annotate values): "
+                "random cross-file uses in both glob directions, custom src/target names, both annotate values; model and checks follow /repo 2d1bc77): "
                 "clean run + rerun, populated target, each (file, fault kind in lexical/syntax/type/undefined) [sampled in "
                 "quick tier], a context-stage fault, all permutations through mamba_to_python (faulty variant: 24 sampled in "
-                "quick tier), an added unrelated file, every user file alone; plus 15 hand-written edge projects and two "
+                "quick tier), an added unrelated file, every user file alone; plus 16 hand-written edge projects and two "
                 "duplicate-name projects. distinct_nontrivial = distinct multi-file transpile_dir cases + permutation runs",
         "projects": len(projects), "multi_file_projects": n_multi,
         "transpile_dir_cases": len(results), "permutation_runs": sum(len(v) for v in by_project.values()),
